@@ -140,6 +140,11 @@ func GetExtendedSpatialIdsWithinRadiusOfLine(startPoint *object.Point, endPoint 
 			// Put idConvex into measure's ConvexHulls[1]
 			measure1.ConvexHulls[1] = idConvex
 
+			// Measure keeps its last direction as the starting point of the next search.
+			// idsAroundLine has no defined order, so start every search from the same
+			// direction; otherwise a result near the radius depends on the visiting order.
+			measure1.Direction = mgl64.Vec3{}
+
 			// Measure the distance between the line (ConvexHull[0]) and the
 			// SpatialIDs vertex vectors (ConvexHull[1])
 			measure1.MeasureNonnegativeDistance()
